@@ -194,3 +194,41 @@ func joinConditional(a, b string, withB bool) string {
 	}
 	return sb.String()
 }
+
+// ---- typed nil in an interface
+type srvFx interface{ Name() string }
+type implFx struct{ n string }
+
+func (i *implFx) Name() string { return i.n }
+func wrapFx(n string) *implFx {
+	if n == "" {
+		return nil
+	}
+	return &implFx{n}
+}
+func providerBad(n string) srvFx { return wrapFx(n) }
+func providerGood(n string) srvFx {
+	w := wrapFx(n)
+	if w == nil {
+		return nil
+	}
+	return w
+}
+
+// ---- lock entry through a three-function cycle
+func (b *box) cycleEntry() {
+	b.mu.Lock()
+	defer b.mu.Unlock()
+	b.cycleA(3)
+}
+func (b *box) cycleA(k int) {
+	if k == 0 {
+		return
+	}
+	b.cycleB(k)
+}
+func (b *box) cycleB(k int) { b.cycleC(k) }
+func (b *box) cycleC(k int) {
+	b.n++ // guarded: every way here holds b.mu
+	b.cycleA(k - 1)
+}
